@@ -9,6 +9,8 @@ every error the consistency checks can report, and the exact characterisation of
 Scoping follows the loader: the local utility registry is ONE map shared by the rule and its
 rewriters (`DeserializeEnv::clone` clones an `Arc`), filled in document order — the utilities
 visible to the n-th rewriter are those of the rule and of the rewriters before it, plus its own.
+The variables of the enclosing rule a rewriter's fix may use are the CAPTURED ones (`Captured`,
+`mem_info_capturedVars_iff`), not the keys of its `transform` section (FIX_C12_3).
 -/
 import AstGrepVerif.Props.C12
 import AstGrepVerif.Lemmas.LoaderIff
@@ -710,12 +712,14 @@ def RewritersResolve (doc : SDoc) : Prop :=
 
 /-- **self-consistency of the whole document** (everything but the potential-kinds clause):
 the main core, every rewriter core in the scope the loader gives it — the utilities of the rule
-and of the rewriters before it are visible, the variables available in the rule may be used by a
-rewriter's fix — and the rewriter references.  Global utilities are what `doc.globals` lists: the
+and of the rewriters before it are visible, the variables the rule CAPTURES (`Captured`: by a
+pattern of the rule, of a utility or of a constraint; NOT the keys of its `transform` section, whose
+texts a rewriter's fix cannot see — FIX_C12_3) may be used by a rewriter's fix — and the rewriter
+references.  Global utilities are what `doc.globals` lists: the
 loader of a rule file only resolves against them. -/
 structure ConsistentDoc (doc : SDoc) : Prop where
   main : CoreConsistent doc.globals [] (fun _ => False) doc.core
-  rewriters : RewritersConsistent doc.globals (Available doc) (utilsOf doc) [] (rewritersOf doc)
+  rewriters : RewritersConsistent doc.globals (Captured doc) (utilsOf doc) [] (rewritersOf doc)
   rewritersResolve : RewritersResolve doc
 
 /-- **well-formed fields of the whole document**: the per-field facts supplied by the harness
@@ -735,6 +739,26 @@ theorem mem_info_definedVars_iff (doc : SDoc) {reg : Registry} (hm : RegMatches 
   rw [← show DefinedIn (utilsOf doc) doc.core v ↔ DefinedBy doc v from Iff.rfl, ← this]
   simp only [coreInfoOf, CheckInput.vars0, CheckInput.localUtilVars, checkInputOf, localUtilVars, List.mem_append]
 
+/-- `RuleCore::captured_vars()` of the main core = `Captured`: no transformation key -/
+theorem mem_info_capturedVars_iff (doc : SDoc) {reg : Registry} (hm : RegMatches reg (utilsOf doc)) (v : Name) :
+    v ∈ (coreInfoOf Fixes.all reg doc.core).capturedVars ↔ Captured doc v := by
+  have := mem_vars_iff_definedIn doc.globals doc.core hm v
+  unfold Captured
+  rw [← show DefinedIn (utilsOf doc) doc.core v ↔ DefinedBy doc v from Iff.rfl, ← this]
+  simp only [coreInfoOf, CheckInput.vars0, CheckInput.localUtilVars, checkInputOf, localUtilVars, List.mem_append]
+
+/-- the upper variables the repaired loader hands to `register_rewriters` -/
+theorem rewriterUpper_all (info : CoreInfo) : rewriterUpper Fixes.all info = info.capturedVars := rfl
+
+/-- the upper variables of the released code: `defined_vars()`, transformation keys included -/
+theorem rewriterUpper_pinned (fx : Fixes) (h : fx.rewriterCaptured = false) (info : CoreInfo) :
+    rewriterUpper fx info = info.definedVars := by
+  simp [rewriterUpper, h]
+
+/-- `defined_vars()` = `captured_vars()` + the transformation keys -/
+theorem coreInfoOf_definedVars (fx : Fixes) (reg : Registry) (core : SCore) :
+    (coreInfoOf fx reg core).definedVars = (coreInfoOf fx reg core).capturedVars ++ transformKeys core := rfl
+
 /-- the consistent old-style summary of the main core follows from the new one -/
 theorem ConsistentDoc.main_refs {doc : SDoc} (h : ConsistentDoc doc) : ∀ id, RefersTo doc id → Resolves doc id := by
   intro id hr
@@ -744,10 +768,10 @@ theorem ConsistentDoc.main_refs {doc : SDoc} (h : ConsistentDoc doc) : ∀ id, R
 theorem loadRewriters_ok_iff (doc : SDoc) {reg : Registry} (hm : RegMatches reg (utilsOf doc)) :
     (∃ reg' done, loadRewriters Fixes.all doc reg (coreInfoOf Fixes.all reg doc.core) = .ok (reg', done)) ↔
       (∀ rw ∈ rewritersOf doc, CoreParses doc.expando rw.core) ∧
-      RewritersConsistent doc.globals (Available doc) (utilsOf doc) [] (rewritersOf doc) ∧
+      RewritersConsistent doc.globals (Captured doc) (utilsOf doc) [] (rewritersOf doc) ∧
       RewritersResolve doc := by
-  have hup : ∀ v, v ∈ (coreInfoOf Fixes.all reg doc.core).definedVars ↔ Available doc v :=
-    mem_info_definedVars_iff doc hm
+  have hup : ∀ v, v ∈ rewriterUpper Fixes.all (coreInfoOf Fixes.all reg doc.core) ↔ Captured doc v :=
+    mem_info_capturedVars_iff doc hm
   unfold loadRewriters RewritersResolve
   rw [rewriterIds_eq]
   unfold rewritersOf
@@ -771,9 +795,9 @@ theorem loadRewriters_ok_iff (doc : SDoc) {reg : Registry} (hm : RegMatches reg 
         rw [this.mpr hh] at hc; cases hc
   | some rws =>
     simp only [Option.getD_some]
-    have hiff := rewriters_ok_iff doc.expando doc.globals (coreInfoOf Fixes.all reg doc.core).definedVars rws [] hm
+    have hiff := rewriters_ok_iff doc.expando doc.globals (rewriterUpper Fixes.all (coreInfoOf Fixes.all reg doc.core)) rws [] hm
     simp only [List.map_nil] at hiff
-    cases hreg : registerRewriters Fixes.all doc.expando doc.globals (coreInfoOf Fixes.all reg doc.core).definedVars rws reg [] with
+    cases hreg : registerRewriters Fixes.all doc.expando doc.globals (rewriterUpper Fixes.all (coreInfoOf Fixes.all reg doc.core)) rws reg [] with
     | err e =>
       simp only
       constructor
@@ -845,7 +869,7 @@ theorem loadRewriters_post (doc : SDoc) {reg reg' : Registry} {done : List (Name
   | some rws =>
     simp only [loadRewriters, hr] at h
     simp only [Option.getD_some]
-    cases hreg : registerRewriters Fixes.all doc.expando doc.globals (coreInfoOf Fixes.all reg doc.core).definedVars rws reg [] with
+    cases hreg : registerRewriters Fixes.all doc.expando doc.globals (rewriterUpper Fixes.all (coreInfoOf Fixes.all reg doc.core)) rws reg [] with
     | err e => rw [hreg] at h; cases h
     | panic s => rw [hreg] at h; cases h
     | ok p =>
@@ -1062,7 +1086,7 @@ theorem kinds_iff_hasKinds (doc : SDoc) (hns : NoGlobalShadow doc) (hc : Consist
     | some rws =>
       rw [hr] at hrw
       simp only at hrw
-      cases hreg : registerRewriters Fixes.all doc.expando doc.globals (coreInfoOf Fixes.all reg doc.core).definedVars rws reg [] with
+      cases hreg : registerRewriters Fixes.all doc.expando doc.globals (rewriterUpper Fixes.all (coreInfoOf Fixes.all reg doc.core)) rws reg [] with
       | err e => rw [hreg] at hrw; cases hrw
       | panic s => rw [hreg] at hrw; cases hrw
       | ok p =>
@@ -1075,7 +1099,7 @@ theorem kinds_iff_hasKinds (doc : SDoc) (hns : NoGlobalShadow doc) (hc : Consist
           · injection hrw with hrw; injection hrw with h1 _
         subst hreq
         have hrws : rewritersOf doc = rws := by unfold rewritersOf; rw [hr]; rfl
-        exact rewriters_kinv doc.expando _ (Available doc) hns rws [] [] done1 hm hk0
+        exact rewriters_kinv doc.expando _ (Captured doc) hns rws [] [] done1 hm hk0
           (by unfold fullScope; rw [hrws]; rfl) (hrws ▸ hc.rewriters) hreg
   unfold HasKinds
   apply potKinds_iff_pos hk'
